@@ -15,11 +15,11 @@ CLAIMS = {
          "model table instead of hashbrown; sequences <= 4 operations; load / load_owned / directory loads through a Source are out of reach"),
  "C03": ("model_checking", TECH3, "ErrorKind::or for all kind pairs and folds over <= 3 extensions; Error id/reason chain; FileContent::with_cow over all three representations; From conversions; the extension loop of load_from_source for n <= 3 (quick) / 8 (thorough) extensions and every outcome per extension (E2: first usable extension in order, otherwise default_value with an error of maximal rank)",
          "Kani/CBMC; model crates; std io::Error / Box<dyn Error> values forgotten (mem::forget) in harnesses; in the E2 kernel the load_with_ext closure is the environment; shipped loaders out of scope"),
- "C06": ("model_checking", TECH2, "entry-level reload-id/watcher/global-flag bookkeeping for all sequences of <= 5 operations; update-list precision on the dependency graph kernel (thorough); watcher/increment interleavings and reloaded_global pollers against one reload (E2); one reloader pass reloads every affected asset exactly once, in order (E2 run_update kernel)",
+ "C06": ("model_checking", TECH2, "entry-level reload-id/watcher/global-flag bookkeeping for all sequences of <= 5 operations; update-list precision on the dependency graph kernel (thorough); watcher/increment interleavings and reloaded_global pollers against one reload (E2); one reloader pass reloads every affected asset exactly once, in order (E2 run_update kernel); Local/Static mode switch of the reloader: which entry point runs a pass in which mode and on which cache, the pass at enhance_hot_reloading consumes the pending set (E2 mode-switch kernel, run_update inlined)",
          "Kani/CBMC; model crates; single-location atomics are coherent so SC interleavings are exact"),
  "C07": ("model_checking", TECH, "lock discipline of read guards (all guard shapes) and of UntypedEntry::write against a ghost-state lock model: value/id/flag change only inside the write section; writer blocks under a live guard; hot_reload blocks until answered",
          "parking_lot model: reader/writer exclusion trusted; std-lock build not covered"),
- "C08": ("model_checking", TECH, "monitor discipline of the answer protocol as one-step obligations from symbolic pre-states (who empties/fills the slot must notify; wrong-token callers and a full slot block untouched; tokens unique; reload sends its token then waits), one pass of the real reloader thread, bounded termination of the reverse-dependency visit on look-up cycles",
+ "C08": ("model_checking", TECH3, "monitor discipline of the answer protocol as one-step obligations from symbolic pre-states (who empties/fills the slot must notify; wrong-token callers and a full slot block untouched; tokens unique; reload sends its token then waits), one pass of the real reloader thread, bounded termination of the reverse-dependency visit on look-up cycles; the message loop of hot_reloading_thread against every script of <= 4 (quick) / 6 (thorough) channel interactions in both reloader modes: every Ptr request is followed by update_if_local and Answers::notify with its own token before the next channel access (E2 thread-loop kernel)",
          "parking_lot::Condvar without spurious wake-ups (documented) and weak fairness assumed; the std-lock build is covered for the answer protocol only (std::sync::Condvar::{wait,notify_all} stubbed, spurious/foreign wake-ups allowed); composition of the one-step obligations into deadlock freedom is a pen-and-paper monitor argument (DESIGN.md §5)"),
  "C09": ("model_checking", TECH3, "a Compound::load failing after 0, 1 or 2 source accesses on a cache with a reloader: the error names the id and carries the loader's error, nothing is cached or registered, cached values keep handle and value, the recording cell is restored; hot_reload returns when the reloader is gone; a reload whose load fails writes and reports nothing, and does not keep the rest of the batch stale (E2 kernels reload_untyped, run_update); which error a failing load reports (E2 load loop)",
          "panics are outside (Kani is panic=abort); the failing load and the reload kernel are decided separately, not as one formula"),
@@ -29,7 +29,7 @@ CLAIMS = {
          "CBMC allocation model stands for the real allocator"),
  "C14": ("model_checking", TECH, "attribution rule of records::{record,no_record,add_*} for every nesting of depth 2 (quick) / 3 (thorough) over two reloader identities and every assignment of readers; record kinds file/dir/asset; recording cell restored",
          "thread-local modelled as a static (no helper threads); no unwinding"),
- "C15": ("model_checking", TECH, "one pass of the real hot_reloading_thread from each channel state: cache dropped with the event sender kept / dropped, idle and alive: it exits or sleeps, never wakes more than twice without consuming a message",
+ "C15": ("model_checking", TECH3, "one pass of the real hot_reloading_thread from each channel state: cache dropped with the event sender kept / dropped, idle and alive: it exits or sleeps, never wakes more than twice without consuming a message; the message loop of hot_reloading_thread against every script of <= 4 (quick) / 6 (thorough) channel interactions: Disconnected on either channel ends the thread without another channel access, it blocks in Select::ready before every round and never re-polls an empty channel without blocking, a ready event channel is polled in that round (E2 thread-loop kernel)",
          "channel model: Select::ready returns on ready-or-disconnected (documented crossbeam behaviour), fair choice"),
  "C16": ("model_checking", TECH2, "all contents for every length 0..3 (quick) / ..8 (thorough) through every constructor, every drop order of 3 handles with leak/double-free/layout checks; from_utf8 against an independent UTF-8 automaton for all strings <= 4 bytes; Eq/Ord/Hash agreement",
          "CBMC allocation model; serde visitors not built"),
@@ -62,7 +62,7 @@ def main():
         },
         "engines": [
             {"name": "E1-kani", "path": "lib/kanirun.py", "serves_properties": sorted(CLAIMS), "kind_free_text": "Kani 0.68/CBMC 6.11 bounded model checking of in-crate proof harnesses (incrate/<property>/*.rs) over the real crate staged from /repo; environment model crates (models/) via [patch]; native concrete-playback replay before any VIOLATION"},
-            {"name": "E2-mir2smt", "path": "engines/mir2smt", "serves_properties": ["C01", "C02", "C03", "C06", "C09", "C10", "C16", "C18"], "kind_free_text": "own encoder: nightly MIR dump -> SMT-LIB; interleaving queries over the atomics kernels (C06/C16/C18) and sequential kernels (extension loop of load_from_source, shard selection of the map), decided by z3 and cvc5 (must agree)"},
+            {"name": "E2-mir2smt", "path": "engines/mir2smt", "serves_properties": ["C01", "C02", "C03", "C06", "C08", "C09", "C10", "C15", "C16", "C18"], "kind_free_text": "own encoder: nightly MIR dump -> SMT-LIB; interleaving queries over the atomics kernels (C06/C16/C18) and sequential kernels (extension loop of load_from_source, shard selection of the map, reload_untyped, run_update, the reloader's mode switch and its thread's message loop), decided by z3 and cvc5 (must agree)"},
         ],
         "checks": [],
         "not_applicable": [],
@@ -78,7 +78,7 @@ def main():
                 "thorough_cmd": f"./check {pid} --tier thorough",
                 "evidence_file": f"/verif/evidence/{pid}.json",
                 "replay_cmd_template": "./replay-trace {path}",
-                "engine": "E1-kani+E2-mir2smt" if pid in ("C01", "C02", "C03", "C06", "C09", "C10", "C16", "C18") else "E1-kani",
+                "engine": "E1-kani+E2-mir2smt" if pid in ("C01", "C02", "C03", "C06", "C08", "C09", "C10", "C15", "C16", "C18") else "E1-kani",
                 "level_claimed": {"category": lvl, "text": text, "design_ref": f"DESIGN.md §6 {pid}"},
                 "level_note": note,
                 "technique": tech,
